@@ -119,7 +119,9 @@ def gen_plan(seed, cfg):
         used_variants = [0, rng.choice([1, 2])]
         threads = [[[0, rng.choice(used_variants)] for _ in t] for t in threads]
     data = [{k: _gen_entries(rng, v[k]) for k in sorted(SHARED)} for v in VARIANTS]
-    strategy = rng.choice(["coin", "coin", "pct", "targeted", "targeted"])
+    strategy = rng.choice(["coin", "coin", "pct", "targeted", "targeted", "pct_writes", "pct_writes"])
+    if mode == "same_method" and rng.random() < 0.5:
+        strategy = "pct_writes"
     sp = {"strategy": strategy,
           "p_hot": rng.choice([0.02, 0.05, 0.1, 0.3]),
           "p_cold": rng.choice([0.0, 0.0005, 0.002]),
@@ -128,6 +130,10 @@ def gen_plan(seed, cfg):
         d = rng.choice([1, 2, 3, 5])
         est = 9000 * sum(len(t) for t in threads)
         sp["change_points"] = sorted(rng.randrange(1, est) for _ in range(d))
+    if strategy == "pct_writes":
+        victims = rng.sample(range(n), rng.choice([1, 1, 2]) if n > 2 else 1)
+        sp["park_at"] = {str(v): rng.randint(1, 45) for v in victims}
+        sp["p_cold"] = rng.choice([0.0, 0.0, 0.0005])
     if strategy == "targeted":
         ws = rng.sample(sorted(WINDOWS), rng.randint(1, 3)) + ["heap"]
         sp["force_windows"] = {w: rng.randint(1, 4) for w in ws}
@@ -142,6 +148,7 @@ def gen_plan(seed, cfg):
         strategy = rng.choice(["coin", "targeted"])
         sp["strategy"] = strategy
         sp["p_hot"] = rng.choice([0.02, 0.05, 0.1])
+        sp.pop("park_at", None)
         if strategy == "targeted":
             sp["force_windows"] = {"cffi_recompile": rng.randint(2, 6), "cffi_platform": rng.randint(1, 4),
                                    "compile_evaluate": rng.randint(1, 3)}
@@ -211,6 +218,25 @@ def _raw(t):
     return [list(r[0][0]), list(r[0][1]), list(r[0][2]), r[1], r[2], [list(p) for p in r[3]]]
 
 
+_WRITE_OPS = ("STORE_ATTR", "STORE_GLOBAL", "STORE_SUBSCR", "STORE_DEREF", "DELETE_ATTR", "DELETE_SUBSCR",
+              "DELETE_GLOBAL")
+
+
+def _write_lines(code):
+    """Lines of a code object that store to an attribute, a global, a subscript or a cell: the
+    places where a thread can publish state that another thread reads."""
+    import dis
+
+    lines = set()
+    cur = None
+    for ins in dis.get_instructions(code):
+        if ins.starts_line is not None:
+            cur = ins.starts_line
+        if ins.opname in _WRITE_OPS and cur is not None:
+            lines.add(cur)
+    return frozenset(lines)
+
+
 def _make_tracer(s: Sched):
     hot = _state["hot"]
     cold = _state["cold"]
@@ -218,10 +244,11 @@ def _make_tracer(s: Sched):
 
     opcodes = bool(s.params.get("opcodes"))
 
-    def mk(is_hot, short, window):
+    def mk(is_hot, short, window, wlines=frozenset()):
         def local(frame, event, arg):
             if event == "line":
-                s.point(f"{short}:{frame.f_lineno}", is_hot)
+                ln = frame.f_lineno
+                s.point(f"{short}:{ln}", is_hot, ln in wlines)
             elif event == "opcode":
                 s.point(f"{short}:{frame.f_lineno}+{frame.f_lasti}", is_hot)
             elif event == "return" and window is not None:
@@ -244,7 +271,8 @@ def _make_tracer(s: Sched):
             f = code.co_filename
             if f.startswith(hot):
                 w = windows.get((f, code.co_name)) or windows.get((f, None))
-                loc = mk(True, os.path.basename(f), w), w, f.startswith(hot[:2])
+                loc = mk(True, os.path.basename(f), w, _write_lines(code) if f.startswith(hot[:2]) else frozenset()), \
+                    w, f.startswith(hot[:2])
             elif f.startswith(cold):
                 loc = mk(False, os.path.basename(f), None), None, False
             else:
